@@ -163,7 +163,7 @@ Definition agg_rule (op : aggop) (without : bool) (grouping : list string) (para
   | ACountValues =>
       (* the value label is set on the input series first, then the grouping is applied:
          by(G) keeps it (it is appended to G); without(G) deletes it when it is listed in G or is __name__ *)
-      let dst := match param with Some (EStr s) => s | _ => "" end in
+      let dst := match lit_of param with Some s => s | None => "" end in   (* the engine unwraps parentheses *)
       let keeps := if without then negb (mem_str dst (metric_name :: grouping)) else true in
       let strip ls := ls_without ls [dst] in
       Some (forallb (fun out => Bool.eqb (has out dst) keeps
@@ -202,9 +202,13 @@ Definition call_rule (f : string) (ats : list vtype) (args : list expr) (cs : li
       end
   | SCDst =>
       match cs, args, R with
-      | RVec C :: _, _ :: EStr dst :: _, RVec R =>
-          let strip ls := ls_without ls [dst] in
-          Some (subset_ls (map strip R) (map strip C) && subset_ls (map strip C) (map strip R))
+      | RVec C :: _, _ :: a1 :: _, RVec R =>
+          match lit_val a1 with   (* the engine unwraps parentheses around call arguments *)
+          | Some dst =>
+              let strip ls := ls_without ls [dst] in
+              Some (subset_ls (map strip R) (map strip C) && subset_ls (map strip C) (map strip R))
+          | None => Some false
+          end
       | _, _, _ => Some false
       end
   end.
